@@ -15,12 +15,13 @@ func init() {
 	vsRegister("C06.pebble_admission", vhC06PebbleAdmission)
 }
 
-
 // Inductive step of C05: from ANY store state with 0..N items in which the bytes held are within
 // the capacity and the usage figure does not under-report, one Put of an arbitrary item leaves
 // (1) the usage figure (in memory and persisted) not below the bytes held,
 // (2) if it pruned: only a farthest-first prefix removed, at least 5% of the capacity freed or
-//     everything removed,
+//
+//	everything removed,
+//
 // (3) with items no larger than 5% of the capacity: bytes held within the capacity.
 //
 //verif:harness C05.put_step unwind=60 timeout=120
@@ -32,9 +33,9 @@ func vhC05PutStep() {
 	node := vsArr32("node")
 	cs := vhStorage(s, node, vhCap, uint256.NewInt(0).SetAllOne())
 	heldBefore := s.kv.held()
-	vsAssume(heldBefore <= vhCap)       // invariant: within capacity
-	vsAssume(s.record >= heldBefore)     // invariant: never under-reports
-	vsAssume(s.record <= vhCap)          // a put that returned left the counter within capacity
+	vsAssume(heldBefore <= vhCap)    // invariant: within capacity
+	vsAssume(s.record >= heldBefore) // invariant: never under-reports
+	vsAssume(s.record <= vhCap)      // a put that returned left the counter within capacity
 	id := vsBytesN("id", 32)
 	vsAssume(!bytes.Equal(id, node[:]))
 	ln := vsU64("len")
